@@ -39,6 +39,9 @@ pub struct Deserializer<'xml> {
 
     /// store an extra event
     next_slot: Option<DeEvent<'xml>>,
+
+    /// the document, until its characters have been checked
+    unchecked: Option<&'xml [u8]>,
 }
 
 /// XML deserialization result
@@ -101,6 +104,7 @@ impl<'xml> Deserializer<'xml> {
             inner: Reader::from_reader(xml),
             peeked: None,
             next_slot: None,
+            unchecked: Some(xml),
         }
     }
 
@@ -108,6 +112,9 @@ impl<'xml> Deserializer<'xml> {
     fn read_event(&mut self) -> DeResult<DeEvent<'xml>> {
         if let Some(ev) = self.next_slot.take() {
             return Ok(ev);
+        }
+        if let Some(xml) = self.unchecked.take() {
+            check_characters(xml)?;
         }
         loop {
             let ev = self.inner.read_event().map_err(invalid_xml)?;
@@ -336,6 +343,19 @@ impl fmt::Debug for Deserializer<'_> {
 /// carries no value: only white space may appear there.
 fn skip_white_space(text: &[u8]) -> DeResult {
     if text.iter().all(|b| matches!(b, b' ' | b'\t' | b'\r' | b'\n')) {
+        Ok(())
+    } else {
+        Err(DeError::InvalidContent)
+    }
+}
+
+/// A document is UTF-8 text made of the characters XML 1.0 allows (`Char` production):
+/// no control characters other than tab, line feed and carriage return, no U+FFFE, no U+FFFF.
+/// Markup, comments and skipped parts are covered as well as the text that becomes data.
+fn check_characters(xml: &[u8]) -> DeResult {
+    let text = std::str::from_utf8(xml).map_err(|_| DeError::InvalidContent)?;
+    let is_xml_char = |c: char| matches!(c, '\t' | '\n' | '\r' | '\u{20}'..='\u{D7FF}' | '\u{E000}'..='\u{FFFD}' | '\u{10000}'..);
+    if text.chars().all(is_xml_char) {
         Ok(())
     } else {
         Err(DeError::InvalidContent)
